@@ -742,6 +742,24 @@ def rule_act_size(rep, repo):
       ("Activation('sigmoid')", layer("Activation", "sigmoid"),
        N("ob") * out),
       ("Activation('linear')", layer("Activation", "linear"), NF.const(0)),
+      # quantizers / activations whose NAME merely contains "sigmoid",
+      # "softmax" or "linear": the applied quantizer's bits count
+      ("QActivation('quantized_sigmoid(4)')",
+       layer("QActivation", "quantized_sigmoid(4)"), 4 * out),
+      ("QActivation('quantized_sigmoid(2)')",
+       layer("QActivation", "quantized_sigmoid(2)"), 2 * out),
+      ("QActivation(quantized_sigmoid object)", layer("QActivation", Mock(
+          "q", {"bits": S("ab"), "__name__": "quantized_sigmoid"})),
+       N("ab") * out),
+      ("QActivation('quantized_tanh(3)')",
+       layer("QActivation", "quantized_tanh(3)"), 3 * out),
+      ("QActivation('quantized_linear(5,1)')",
+       layer("QActivation", "quantized_linear(5,1)"), 5 * out),
+      ("Activation(hard_sigmoid function)",
+       layer("Activation", fnm("hard_sigmoid")), N("ref") * out),
+      ("QDense(quantized_sigmoid object)", layer("QDense", Mock(
+          "q", {"bits": S("ab"), "__name__": "quantized_sigmoid"})),
+       N("ab") * out),
       ("MaxPooling2D", layer("MaxPooling2D", None), NF.const(0)),
   ]
   for label, lyr, want in cases:
